@@ -11,7 +11,7 @@ from sa.flow import show, sig, subterms
 from sa.model import AnalysisError, norm, parent, walk_no_nested
 from sa.rules import Report
 
-from .common import alts, callers_of, commands, is_call, is_const, is_plain_iter, need, prov, reach_from, unshipped_modules
+from .common import include_rules, alts, callers_of, commands, is_call, is_const, is_plain_iter, need, prov, reach_from, unshipped_modules
 from .xmlcommon import documents, writers
 from . import c04, c05
 
@@ -230,6 +230,7 @@ def run(report, p):
                 f.rule = rr.id
             report.rules.append(rr)
 
+    include_rules(report, p, 'c16', ['R16.4'], 'the manifest name carries the UTC time')
     report.not_decided += ["byte-for-byte stability of earlier manifests at run time", "collision of the fresh name with a foreign file", "several runs within the same clock second (names differ by number, not by time)"]
 
 
